@@ -432,17 +432,49 @@ fn e2e_case(sink: &mut Sink, r: &mut Rng, bin: &str, scratch: &str) {
     if let Some(w) = g.gwa {
         t += &format!("warn_at = {w}\n");
     }
-    for x in &g.rules {
-        t += &format!("[[content.rules]]\npattern = \"{}\"\nmax_lines = {}\n", x.pattern, x.max_lines);
+    let rule_text = |x: &ContentRule| {
+        let mut t = format!("[[content.rules]]\npattern = \"{}\"\nmax_lines = {}\n", x.pattern, x.max_lines);
         if let Some(v) = x.warn_threshold { t += &format!("warn_threshold = {v:?}\n"); }
         if let Some(v) = x.warn_at { t += &format!("warn_at = {v}\n"); }
         if let Some(v) = x.skip_comments { t += &format!("skip_comments = {v}\n"); }
         if let Some(v) = x.skip_blank { t += &format!("skip_blank = {v}\n"); }
+        t
+    };
+    // a third of the configurations are an `extends` chain of two files: the base holds the first
+    // rules, the child the others and then restates one of the base's rules — rule arrays
+    // concatenate parent-then-child, so the restated rule is declared last
+    let mut base_text: Option<String> = None;
+    if !g.rules.is_empty() && r.chance(1, 3) {
+        let k = r.range(1, g.rules.len());
+        let restated = g.rules[r.below(k)].clone();
+        let mut bt = String::from("version = \"2\"\n");
+        for x in &g.rules[..k] {
+            bt += &rule_text(x);
+        }
+        base_text = Some(bt);
+        t = format!("extends = \"base.toml\"\n{t}");
+        for x in &g.rules[k..] {
+            t += &rule_text(x);
+        }
+        t += &rule_text(&restated);
+        g.rules.push(restated);
+    } else {
+        for x in &g.rules {
+            t += &rule_text(x);
+        }
+    }
+    if let Some(bt) = &base_text {
+        std::fs::write(dir.join("base.toml"), bt).unwrap();
     }
     std::fs::write(dir.join(".sloc-guard.toml"), &t).unwrap();
     let mut argv: Vec<String> = ["check", "--no-sloc-cache", "--format", "json"].iter().map(|x| (*x).to_string()).collect();
     if let Some(w) = g.cli_wt {
         argv.push(format!("--warn-threshold={w:?}"));
+    }
+    // split suggestions are advice: asking for them must not change any verdict
+    let suggest = r.chance(1, 4);
+    if suggest {
+        argv.push("--suggest".into());
     }
     argv.push(".".into());
     let o = std::process::Command::new(bin).args(&argv).current_dir(&dir).env("NO_COLOR", "1").output().expect("run sloc-guard");
@@ -463,7 +495,7 @@ fn e2e_case(sink: &mut Sink, r: &mut Rng, bin: &str, scratch: &str) {
                 let status = x.get("status").and_then(|s| s.as_str()).unwrap_or("?").to_string();
                 let sloc = x.get("sloc").and_then(|s| s.as_u64()).unwrap_or(u64::MAX) as usize;
                 let limit = x.get("limit").and_then(|s| s.as_u64()).unwrap_or(u64::MAX) as usize;
-                tag += &format!("{status}{}{}", if g.cli_wt.is_some() { "/cli-threshold" } else { "" }, if g.gwa.is_some() { "/global-warn-at" } else { "" });
+                tag += &format!("{status}{}{}{}{}", if g.cli_wt.is_some() { "/cli-threshold" } else { "" }, if g.gwa.is_some() { "/global-warn-at" } else { "" }, if base_text.is_some() { "/extends" } else { "" }, if suggest { "/suggest" } else { "" });
                 if (status.as_str(), sloc, limit) != (obs.status.as_str(), obs.eff, obs.limit) {
                     pred = Some(format!("`{}` reports {} (count {sloc}, limit {limit}) for {}; the checker gives {} (count {}, limit {}, warn point {:?})", argv.join(" "), status, g.path, obs.status, obs.eff, obs.limit, obs.warn));
                 }
